@@ -643,6 +643,7 @@ def judge(ctx, env, cases, use_model=True):
                 # NaN / inf in the library's result: not representable in the exact model; property oracles only
                 expects[i] = None
                 ctx.stat("library-result-not-finite")
+                ctx.extra.setdefault("library_result_not_finite", []).append(cases[i].label)
         if lines:
             rc, out, err = ctx.run_model("model_c20", lines)
             if rc == 0 and len(out) == len(lines):
@@ -763,7 +764,11 @@ def judge_one(ctx, env, c, plan, lr, exp, act):
         want_shape = (d, [N]) if c.count("transpose-output") else (N, [d])
         ctx.stat("oracle:shape")
         if shape != want_shape:
-            sig = "read:unterminated-last-line" if (c.file and not c.file.endswith("\n")) else \
+            # the shape an unterminated last line read twice would give (F-CLI-EOF): one more sample, or with
+            # --transpose-input one more coordinate
+            n2, d2 = (N, d + 1) if (c.count("transpose-input") and ident == "PassThru") else (N + 1, d)
+            dup_shape = (d2, [n2]) if c.count("transpose-output") else (n2, [d2])
+            sig = "read:unterminated-last-line" if (c.file and not c.file.endswith("\n") and shape == dup_shape) else \
                 "shape:%s" % ("passthru" if ident == "PassThru" else "embedding")
             ctx.fail(sig, "output has %d lines x %s fields, the property demands %d x %s (N = %d samples%s)"
                      % (shape[0], shape[1], want_shape[0], want_shape[1], N,
